@@ -164,6 +164,14 @@ class Functor:
         return self
 
 
+class NotFn:
+    def __init__(self, inner):
+        self.inner = inner
+
+    def copy(self):
+        return self
+
+
 class Closure:
     def __init__(self, callop, caps):
         self.callop, self.caps = callop, caps
@@ -825,6 +833,7 @@ class Interp:
         return self.ev_ImplicitCastExpr(e)
 
     ev_CXXStaticCastExpr = ev_CXXFunctionalCastExpr = ev_CStyleCastExpr = _explicit_cast
+    ev_CXXConstCastExpr = _explicit_cast   # value-preserving; the cast itself is R-OWN.cast's business
 
     def ev_ConditionalOperator(self, e):
         c, a, b = e["ch"]
@@ -1038,6 +1047,9 @@ class Interp:
                 return Vec([copy_value(x) for x in v.items])
             if isinstance(v, Iter) and len(vals) >= 2 and isinstance(vals[1], Iter):
                 return Vec([copy_value(x) for x in v.vec.items[v.pos:vals[1].pos]])
+            if isinstance(v, int) and (v < 0 or v > 100000):
+                # std::vector(n) with an absurd size: length_error / bad_alloc in the real program
+                raise Thrown("std::length_error", None, e.get("l"))
             if isinstance(v, int):
                 fill = vals[1] if len(vals) >= 2 and not isinstance(vals[1], Sentinel) and not (
                     isinstance(vals[1], Obj)) else None
@@ -1122,8 +1134,22 @@ class Interp:
             return box(this)
         return self.std_call(ci, e)
 
+    def _invoke(self, fn, args):
+        """Call a closure / functor object with arbitrary arguments and return its value."""
+        fn = val(fn)
+        if isinstance(fn, Closure):
+            f = self.func(fn.callop)
+            if f is None:
+                raise OutOfFragment("lambda without body")
+            return self.call(f, fn, list(args))
+        if isinstance(fn, (Functor, NotFn)):
+            return 1 if self._callable(fn, *args) else 0
+        raise OutOfFragment("callable %r" % (fn,))
+
     def _callable(self, fn, *args):
         fn = val(fn)
+        if isinstance(fn, NotFn):
+            return not self._callable(fn.inner, *args)
         if isinstance(fn, Functor):
             x, y = val(args[0]), val(args[1])
             if isinstance(x, Sc):
@@ -1255,6 +1281,102 @@ class Interp:
                     if not ok:
                         return 0
                 return 1
+            if base == "std::clamp":
+                x, lo, hi = A[0], A[1], A[2]
+                comp = A[3] if len(A) > 3 else None
+                if self._less(comp, x, lo):
+                    return lo
+                if self._less(comp, hi, x):
+                    return hi
+                return x
+            if base == "std::minmax" and len(A) >= 2 and not isinstance(V[0], Vec):
+                comp = A[2] if len(A) > 2 else None
+                a_, b_ = A[0], A[1]
+                pr = Obj("std::pair", None)
+                if self._less(comp, b_, a_):
+                    pr.fields = {"first": copy_value(b_), "second": copy_value(a_)}
+                else:
+                    pr.fields = {"first": copy_value(a_), "second": copy_value(b_)}
+                return pr
+            if base in ("std::max_element", "std::min_element"):
+                first, last = V[0], V[1]
+                comp = A[2] if len(A) > 2 else None
+                if first.pos == last.pos:
+                    return Iter(first.vec, last.pos)
+                best = first.pos
+                for i in range(first.pos + 1, last.pos):
+                    a_, b_ = LV(first.vec.items, best), LV(first.vec.items, i)
+                    if (base == "std::max_element" and self._less(comp, a_, b_)) or \
+                            (base == "std::min_element" and self._less(comp, b_, a_)):
+                        best = i
+                return Iter(first.vec, best)
+            if base == "std::accumulate":
+                first, last = V[0], V[1]
+                acc = copy_value(A[2])
+                fn = A[3] if len(A) > 3 else None
+                for i in range(first.pos, last.pos):
+                    el = LV(first.vec.items, i)
+                    if fn is None:
+                        x_, y_ = val(acc), el.load()
+                        if isinstance(x_, Sc) and isinstance(y_, Sc):
+                            acc = sc_arith("+", x_, y_)
+                        elif isinstance(x_, int) and isinstance(y_, int):
+                            acc = x_ + y_
+                        else:
+                            raise OutOfFragment("accumulate of %r" % (y_,))
+                    else:
+                        acc = copy_value(self._invoke(fn, [box(acc), el]))
+                return acc
+            if base in ("std::copy", "std::copy_n", "std::move") and len(V) == 3 and isinstance(V[0], Iter) and \
+                    isinstance(V[2], Iter):
+                first = V[0]
+                n_ = V[1] if base == "std::copy_n" else V[1].pos - first.pos
+                out = V[2]
+                for i in range(n_):
+                    self.deref(Iter(out.vec, out.pos + i)).store(copy_value(self.deref(Iter(first.vec, first.pos + i))))
+                return Iter(out.vec, out.pos + n_)
+            if base in ("std::fill", "std::fill_n"):
+                first = V[0]
+                n_ = V[1] if base == "std::fill_n" else V[1].pos - first.pos
+                x = A[2]
+                for i in range(n_):
+                    self.deref(Iter(first.vec, first.pos + i)).store(copy_value(x))
+                return Iter(first.vec, first.pos + n_) if base == "std::fill_n" else None
+            if base == "std::iota":
+                first, last = V[0], V[1]
+                x = V[2]
+                for i in range(first.pos, last.pos):
+                    first.vec.items[i] = x
+                    x = x + 1 if isinstance(x, int) else sc_arith("+", x, Sc(1))
+                return None
+            if base == "std::reverse":
+                first, last = V[0], V[1]
+                first.vec.items[first.pos:last.pos] = first.vec.items[first.pos:last.pos][::-1]
+                return None
+            if base == "std::for_each":
+                first, last = V[0], V[1]
+                for i in range(first.pos, last.pos):
+                    self._invoke(A[2], [LV(first.vec.items, i)])
+                return A[2]
+            if base == "std::transform":
+                first, last = V[0], V[1]
+                if len(V) == 4:
+                    out, fn = V[2], A[3]
+                    for i in range(last.pos - first.pos):
+                        r_ = self._invoke(fn, [LV(first.vec.items, first.pos + i)])
+                        self.deref(Iter(out.vec, out.pos + i)).store(copy_value(r_))
+                    return Iter(out.vec, out.pos + last.pos - first.pos)
+                first2, out, fn = V[2], V[3], A[4]
+                for i in range(last.pos - first.pos):
+                    r_ = self._invoke(fn, [LV(first.vec.items, first.pos + i), LV(first2.vec.items, first2.pos + i)])
+                    self.deref(Iter(out.vec, out.pos + i)).store(copy_value(r_))
+                return Iter(out.vec, out.pos + last.pos - first.pos)
+            if base == "std::not_fn":
+                inner = val(A[0])
+                neg = {"<": ">=", ">": "<=", "<=": ">", ">=": "<", "==": "!=", "!=": "=="}
+                if isinstance(inner, Functor) and False:
+                    return Functor(neg[inner.op])  # not equivalent for unordered values: keep the wrapper
+                return NotFn(inner)
             if base == "std::mismatch":
                 first1, last1, first2 = V[0], V[1], V[2]
                 last2 = V[3] if len(V) > 3 and isinstance(V[3], Iter) else None
@@ -1445,6 +1567,9 @@ class Interp:
             if name == "reset":
                 o.has, o.v = False, None
                 return None
+            if name == "emplace" and len(V) == 1:
+                o.has, o.v = True, copy_value(V[0])
+                return LV(o.__dict__, "v")
         if isinstance(o, SharedPtr):
             if name == "operator bool":
                 return 1 if o.target is not None else 0
@@ -1501,14 +1626,16 @@ class Interp:
                 o.items.append(copy_value(A[0]))
                 return None
             if name == "reserve":
+                if V and isinstance(V[0], int) and V[0] > (1 << 60):
+                    raise Thrown("std::length_error", None, e.get("l"))
                 return None
             if name == "clear":
                 o.items[:] = []
                 return None
             if name == "resize":
                 k = V[0]
-                if k < 0:
-                    raise ModelUB("resize to negative size")
+                if k < 0 or k > 100000:
+                    raise Thrown("std::length_error", None, e.get("l"))
                 if k <= n:
                     del o.items[k:]
                 else:
@@ -1523,6 +1650,8 @@ class Interp:
                 if isinstance(V[0], Iter):
                     o.items[:] = [copy_value(x) for x in V[0].vec.items[V[0].pos:V[1].pos]]
                 else:
+                    if V[0] > 100000:
+                        raise Thrown("std::length_error", None, e.get("l"))
                     o.items[:] = [copy_value(V[1]) for _ in range(V[0])]
                 return None
             if name == "insert" and len(V) == 2 and isinstance(V[0], Iter):
@@ -1559,8 +1688,8 @@ class Interp:
                 return obj
             if name == "data":
                 return Iter(o, 0)
-        if isinstance(o, Functor) and name == "operator()":
-            return 1 if self._callable(o, A[0], A[1]) else 0
+        if isinstance(o, (Functor, NotFn)) and name == "operator()":
+            return 1 if self._callable(o, *A) else 0
         if isinstance(o, Closure) and name == "operator()":
             f = self.func(o.callop)
             return self.call(f, None, A)
